@@ -14,6 +14,10 @@ for nm in names:
     meta = json.load(open(os.path.join(d, "meta.json")))
     det = meta.get("detection", {})
     checks = [c for c, v in det.items() if v.get("exit") == 1 and v.get("violations", 0) > 0] or [pid]
+    if os.environ.get("SEEDRERUN_FAST"):
+        # one check only: the fastest of those that caught it (C06 and C10 take minutes)
+        slow = {"C06": 3, "C10": 2}
+        checks = sorted(checks, key=lambda c: (slow.get(c, 0), c != pid))[:1]
     tmp = tempfile.mkdtemp(prefix="seedrerun-")
     for a, b in (("patch.diff", "patch1.diff"), ("demo_test.go", "demo1_test.go"), ("notes.md", "notes1.md")):
         if os.path.exists(os.path.join(d, a)):
